@@ -67,6 +67,11 @@ def check_series(case, t, D, mode, N):
                 break
     init = list(simrun.initial_status(case).values())
     want0 = {s_: init.count(s_) for s_ in sts}
+    if case.get('use_rho') is not None:
+        k = int(round(N * case['use_rho']))
+        want0 = {'S': N - k, 'I': k}
+        if 'R' in sts:
+            want0['R'] = 0
     got0 = {s_: D[s_][0] for s_ in sts}
     if got0 != want0 and not fails and not tied:
         fails.append(Failure(name + ':row0', 'first row %r is not the initial condition %r (synthetic rows left in / dropped?)' % (got0, want0)))
@@ -93,6 +98,14 @@ def classify_end(case, t, D):
     if 'I' in D and D['I'][-1] == 0:
         return 'ended-by-extinction'
     return 'ended-by-horizon' if tmax != INF else 'ended-no-events-left'
+
+
+@st.composite
+def rho_case(draw):
+    case = draw(simrun.sim_case(sims=[s_ for s_ in simrun.SIMS if simrun.KIND[s_] != 'generic'], nmax=14))
+    case['use_rho'] = draw(st.sampled_from([0.1, 0.25, 0.5, 0.05, 0.75, 1.0, 0.3]))
+    case['R0'] = []
+    return case
 
 
 def prop_case(case):
@@ -221,6 +234,8 @@ def run(ctx):
         for sim in simrun.SIMS:          # equal share per simulator
             run_hypothesis(ctx, 'random', simrun.sim_case(sims=[sim]), prop_case, 125 if quick else 5000)
         check_class_fractions(ctx, 'random', {'ended-by-horizon': 0.1, 'ended-by-extinction': 0.1, 'ended-immediately': 0.05})
+    if not only or 'rho' in only:
+        run_hypothesis(ctx, 'rho', rho_case(), prop_case, 300 if quick else 10000)
     if not only or 'horizon' in only:
         run_hypothesis(ctx, 'horizon', horizon_case(), prop_case, 400 if quick else 10000)
     if not only or 'gillespie-horizon' in only:
